@@ -165,3 +165,8 @@ reg("C46", "rv-wasm", "exploration", "differential execution original-vs-instrum
 reg("C47", "rv-wasm", "exploration", "byte-exact memory model vs recorded host-side buffers",
     "A module importing all 49 host functions with pattern-filled memory is driven with (pointer, length) pairs from {0,1,size-1,size,size+1,2^31,2^32-1, exact fit, one over, random}, memory growth around the call and returned slices: in range the monitoring runtime must have received exactly the model's bytes (writes replace exactly the range), out of range the call must fail with MemoryAccessError without reaching the host and leave memory equal to the model; any panic is a violation.",
     _WASM_NOTE + " Exercises the wasmi glue (where all memory accesses live), not full transactions through ScryptoRuntime.", "DESIGN.md §4 C47")
+
+reg("C01", "rv-determinism", "exploration", "byte-level digest comparison across re-executions (flags, cache, threads, processes)",
+    "Each sampled transaction of long mixed histories (incl. WAT packages, pools, batches, rejects, epoch changes) is executed uncommitted under a reference configuration and then again: identically, under the diagnostic flag combinations (kernel trace, cost breakdown, execution trace depths, debug information), with a cold vs warm code cache, on 16 threads released together against a shared database and cache, as the committed execution, and in a second process replaying the same history; a canonical byte digest of kind, outcome, state updates (order included), events, logs, fee summary/source/destination, new entities and nullifications must be identical in all of them.",
+    _LEDGER_NOTE + " Same machine and architecture only; no TSan build.", "DESIGN.md §4 C01",
+    watchdog={"quick": 2400, "thorough": 4 * 3600})
